@@ -161,6 +161,9 @@ class _LibProxy(object):
         nat = native
 
         def call(*args):
+            # a native function handed to another native function (scrypt's core) must be the real pointer
+            if any(hasattr(a, "_real") for a in args):
+                args = tuple(getattr(a, "_real", a) for a in args)
             nat.total += 1
             nat.calls[key] = nat.calls.get(key, 0) + 1
             inj = nat.inject
